@@ -11,6 +11,7 @@ References
 
 """
 
+import re
 import sys
 
 def to_dimacs_file(formula, fileorname=None,
@@ -72,6 +73,16 @@ def to_dimacs_file(formula, fileorname=None,
             output.write(str(lit)+" ")
         output.write("0\n")
 
+def dimacs_int(text):
+    """Value of an integer written in a DIMACS file
+
+    Python's `int` also accepts spellings like '1_0' or non ASCII
+    digits, which in a DIMACS file are just mistakes."""
+    if re.fullmatch('[+-]?[0-9]+', text) is None:
+        raise ValueError("'{}' is not an integer".format(text))
+    return int(text)
+
+
 def parse_dimacs(infile):
     """Parse a dimacs cnf in file object
 
@@ -119,9 +130,11 @@ def parse_dimacs(infile):
                 raise ValueError(
                     "There is a another spec at line {}".format(line_counter))
             try:
-                _, _, nstr, mstr = line.split()
-                n = int(nstr)
-                m = int(mstr)
+                p, fmt, nstr, mstr = line.split()
+                if p != 'p' or fmt != 'cnf':
+                    raise ValueError
+                n = dimacs_int(nstr)
+                m = dimacs_int(mstr)
                 if n < 0 or m < 0:
                     raise ValueError
             except ValueError:
@@ -137,7 +150,7 @@ def parse_dimacs(infile):
 
         # parse literals
         try:
-            for lv in [int(lit) for lit in line.split()]:
+            for lv in [dimacs_int(lit) for lit in line.split()]:
                 if lv == 0:
                     clauses_count += 1
                     yield tuple(literal_buffer)
